@@ -90,7 +90,11 @@ pub fn gtuple(typed: bool) -> BoxedStrategy<Tuple> {
             24 => proptest::collection::vec((gkey(), gtext1()), 0..=3),
             2 => proptest::collection::vec((gkey(), gtext1()), 4..=12),
             // more than 16 / 32 qualifiers
-            1 => (17usize..=40, gtext1()).prop_map(|(n, v)| (0..n).map(|i| (format!("{}{i:02}", if i % 3 == 0 { "Q" } else { "q" }), v.clone())).collect::<Vec<_>>()),
+            1 => (17usize..=40, gtext1(), proptest::collection::vec(0usize..6, 40)).prop_map(|(n, v, heads)| {
+                // heads that differ by '_' / '.' / a letter (in either case) right after a shared first letter
+                const HEADS: &[&str] = &["q", "Q", "a_", "ab", "aB", "a."];
+                (0..n).map(|i| (format!("{}{i:02}", HEADS[heads[i]]), v.clone())).collect::<Vec<_>>()
+            }),
         ],
         prop_oneof![
             3 => Just(Vec::new()),
